@@ -16,6 +16,7 @@ use std::sync::Mutex;
 use std::time::Instant;
 
 pub const VERIF_ROOT: &str = "/verif";
+pub fn shards() -> usize { std::env::var("VERIF_SHARDS").ok().and_then(|s| s.parse().ok()).unwrap_or(16) }
 pub const SHARDS: usize = 16;
 
 #[derive(Clone, Copy, PartialEq, Eq, Debug)]
@@ -42,7 +43,7 @@ impl Tier {
 
 /// A violation found by an oracle. `sig` is a stable, input-independent
 /// signature used to match known findings; `detail` explains the concrete case.
-#[derive(Clone, Debug)]
+#[derive(Clone, Debug, Serialize, serde::Deserialize)]
 pub struct Viol {
     pub sig: String,
     pub detail: String,
@@ -90,7 +91,7 @@ impl Obs {
     }
 }
 
-#[derive(Default)]
+#[derive(Default, Serialize, serde::Deserialize)]
 pub struct Stats {
     pub evaluations: u64,
     pub nontrivial: u64,
@@ -192,9 +193,25 @@ pub struct Ctx {
 
 impl Ctx {
     pub fn new(id: &str, tier: Tier, seed: u64, out: File) -> Ctx {
-        let work = PathBuf::from(VERIF_ROOT)
-            .join(".work")
-            .join(format!("{}-{}", id, std::process::id()));
+        // scratch lives on tmpfs when available (ext4 create/unlink serialises the shards), else under /verif/.work
+        let shm = Path::new("/dev/shm");
+        let root = if std::env::var("VERIF_WORK_ON_DISK").is_err() && shm.is_dir() && fs::create_dir_all(shm.join("verif-work")).is_ok() {
+            shm.join("verif-work")
+        } else {
+            PathBuf::from(VERIF_ROOT).join(".work")
+        };
+        // remove scratch of runs whose process is gone
+        if let Ok(rd) = fs::read_dir(&root) {
+            for e in rd.flatten() {
+                let name = e.file_name().to_string_lossy().to_string();
+                if let Some(pid) = name.rsplit('-').next().and_then(|p| p.parse::<i32>().ok()) {
+                    if unsafe { libc::kill(pid, 0) } != 0 {
+                        let _ = fs::remove_dir_all(e.path());
+                    }
+                }
+            }
+        }
+        let work = root.join(format!("{}-{}", id, std::process::id()));
         let _ = fs::remove_dir_all(&work);
         fs::create_dir_all(&work).expect("create work dir");
         Ctx {
@@ -241,7 +258,7 @@ impl Ctx {
     /// A fresh private directory for one case / shard.
     pub fn fresh_dir(&self, tag: &str) -> PathBuf {
         let n = self.work_counter.fetch_add(1, Ordering::SeqCst);
-        let p = self.work.join(format!("{}-{}", tag, n));
+        let p = self.work.join(format!("{}-{}-p{}", tag, n, std::process::id()));
         fs::create_dir_all(&p).expect("create case dir");
         p
     }
@@ -353,6 +370,100 @@ pub fn record<C: Serialize>(
     }
 }
 
+
+#[derive(Serialize, serde::Deserialize)]
+struct ShardOut {
+    stats: Stats,
+    fail: Option<(Viol, Value)>,
+}
+
+/// Run `f(shard)` for every shard in its own forked process (the worker
+/// threads of the code under test contend on the address space when many of
+/// them are spawned from one process) and collect the results. Falls back to
+/// threads with VERIF_FORK=0.
+fn run_sharded<F>(ctx: &Ctx, nshards: usize, f: F) -> Vec<ShardOut>
+where
+    F: Fn(usize) -> ShardOut + Sync,
+{
+    let use_fork = std::env::var("VERIF_FORK").map(|v| v != "0").unwrap_or(true);
+    if !use_fork || nshards == 1 {
+        return std::thread::scope(|s| {
+            let hs: Vec<_> = (0..nshards).map(|k| { let f = &f; s.spawn(move || f(k)) }).collect();
+            hs.into_iter().map(|h| h.join().expect("shard panicked")).collect()
+        });
+    }
+    let tag = ctx.work_counter.fetch_add(1, Ordering::SeqCst);
+    let mut pids = vec![];
+    for k in 0..nshards {
+        let path = ctx.work.join(format!("shard-{}-{}.json", tag, k));
+        let pid = unsafe { libc::fork() };
+        if pid < 0 {
+            ctx.say("fork failed");
+            std::process::exit(2);
+        }
+        if pid == 0 {
+            // child
+            let code = match std::panic::catch_unwind(std::panic::AssertUnwindSafe(|| f(k))) {
+                Ok(out) => match serde_json::to_vec(&out) {
+                    Ok(b) => {
+                        if fs::write(&path, b).is_ok() {
+                            0
+                        } else {
+                            3
+                        }
+                    }
+                    Err(_) => 4,
+                },
+                Err(_) => 5,
+            };
+            unsafe { libc::_exit(code) };
+        }
+        pids.push((pid, path));
+    }
+    let mut outs = vec![];
+    for (pid, path) in pids {
+        let mut status = 0;
+        unsafe { libc::waitpid(pid, &mut status, 0) };
+        let ok = libc::WIFEXITED(status) && libc::WEXITSTATUS(status) == 0;
+        let parsed = if ok { fs::read(&path).ok().and_then(|b| serde_json::from_slice::<ShardOut>(&b).ok()) } else { None };
+        let _ = fs::remove_file(&path);
+        match parsed {
+            Some(o) => outs.push(o),
+            None => {
+                ctx.say(&format!("HARNESS FAILURE: shard process {} ended abnormally (status {:#x}); the check did not complete", pid, status));
+                ctx.cleanup();
+                std::process::exit(2);
+            }
+        }
+    }
+    outs
+}
+
+fn merge_shards(ctx: &Ctx, part: &str, exhaustive: bool, results: Vec<ShardOut>) {
+    let mut best: Option<(Viol, Value)> = None;
+    {
+        let mut st = ctx.stats.lock().unwrap();
+        if exhaustive {
+            st.exhaustive_parts.push(part.to_string());
+        }
+        for o in results {
+            st.merge(o.stats);
+            if let Some((v, c)) = o.fail {
+                let better = match &best {
+                    None => true,
+                    Some((_, bc)) => c.to_string().len() < bc.to_string().len(),
+                };
+                if better {
+                    best = Some((v, c));
+                }
+            }
+        }
+    }
+    if let Some((v, c)) = best {
+        report_failure(ctx, part, v, c);
+    }
+}
+
 /// Run `cases` generated cases of one part, split over SHARDS threads, each
 /// with its own deterministic proptest runner; shrink the first failure of
 /// each shard and keep the smallest.
@@ -362,7 +473,7 @@ where
     MK: Fn() -> BoxedStrategy<C> + Sync,
     J: Fn(&C, &mut Obs) -> Judge + Sync,
 {
-    explore_n(ctx, part, cases, SHARDS, 4096, mk, judge)
+    explore_n(ctx, part, cases, shards(), 4096, mk, judge)
 }
 
 pub fn explore_n<C, MK, J>(
@@ -382,96 +493,66 @@ pub fn explore_n<C, MK, J>(
         return;
     }
     let per = (cases as usize + shards - 1) / shards;
-    let results: Vec<(Stats, Option<(Viol, C)>)> = std::thread::scope(|s| {
-        let mut hs = vec![];
-        for shard in 0..shards {
-            let mk = &mk;
-            let judge = &judge;
-            hs.push(s.spawn(move || {
-                let cfg = Config {
-                    cases: per as u32,
-                    failure_persistence: None,
-                    rng_seed: RngSeed::Fixed(ctx.shard_seed(part, shard)),
-                    max_shrink_iters,
-                    max_global_rejects: 1_000_000,
-                    ..Config::default()
-                };
-                let mut runner = TestRunner::new(cfg);
-                let strat = mk();
-                let stats = RefCell::new(Stats::default());
-                let failed = RefCell::new(false);
-                let last_viol: RefCell<Option<Viol>> = RefCell::new(None);
-                let r = runner.run(&strat, |case| {
-                    let mut obs = Obs::default();
-                    let res = judge(&case, &mut obs);
-                    if *failed.borrow() {
-                        // shrinking: do not count, only report pass/fail
-                        return match res {
-                            Err(v) if ctx.is_known(&v.sig).is_none() => {
-                                *last_viol.borrow_mut() = Some(v.clone());
-                                Err(TestCaseError::fail(v.sig))
-                            }
-                            _ => Ok(()),
-                        };
+    let results = run_sharded(ctx, shards, |shard| {
+        let cfg = Config {
+            cases: per as u32,
+            failure_persistence: None,
+            rng_seed: RngSeed::Fixed(ctx.shard_seed(part, shard)),
+            max_shrink_iters,
+            max_global_rejects: 1_000_000,
+            ..Config::default()
+        };
+        let mut runner = TestRunner::new(cfg);
+        let strat = mk();
+        let stats = RefCell::new(Stats::default());
+        let failed = RefCell::new(false);
+        let last_viol: RefCell<Option<Viol>> = RefCell::new(None);
+        let r = runner.run(&strat, |case| {
+            let mut obs = Obs::default();
+            let res = judge(&case, &mut obs);
+            if *failed.borrow() {
+                // shrinking: do not count, only report pass/fail
+                return match res {
+                    Err(v) if ctx.is_known(&v.sig).is_none() => {
+                        *last_viol.borrow_mut() = Some(v.clone());
+                        Err(TestCaseError::fail(v.sig))
                     }
-                    let fp = hash_str(&format!("{:?}", case));
-                    let mut st = stats.borrow_mut();
-                    match record(ctx, &mut st, part, &case, Some(fp), obs, res) {
-                        Ok(()) => Ok(()),
-                        Err(v) => {
-                            *failed.borrow_mut() = true;
-                            *last_viol.borrow_mut() = Some(v.clone());
-                            Err(TestCaseError::fail(v.sig))
-                        }
-                    }
-                });
-                let fail = match r {
-                    Ok(()) => None,
-                    Err(TestError::Fail(_, c)) => {
-                        // re-judge the minimal case to get its own detail
-                        let mut obs = Obs::default();
-                        let v = match judge(&c, &mut obs) {
-                            Err(v) => v,
-                            Ok(()) => last_viol
-                                .borrow()
-                                .clone()
-                                .unwrap_or(Viol::new("unstable", "failure did not reproduce on the shrunk case")),
-                        };
-                        Some((v, c))
-                    }
-                    Err(TestError::Abort(why)) => Some((
-                        Viol::new("harness-abort", format!("proptest aborted: {}", why)),
-                        // no case available; use a generated one for the record
-                        strat
-                            .new_tree(&mut runner)
-                            .map(|t| proptest::strategy::ValueTree::current(&t))
-                            .unwrap(),
-                    )),
+                    _ => Ok(()),
                 };
-                (stats.into_inner(), fail)
-            }));
-        }
-        hs.into_iter().map(|h| h.join().expect("shard panicked")).collect()
-    });
-    let mut best: Option<(Viol, C)> = None;
-    {
-        let mut st = ctx.stats.lock().unwrap();
-        for (s, f) in results {
-            st.merge(s);
-            if let Some((v, c)) = f {
-                let better = match &best {
-                    None => true,
-                    Some((_, bc)) => format!("{:?}", c).len() < format!("{:?}", bc).len(),
-                };
-                if better {
-                    best = Some((v, c));
+            }
+            let fp = hash_str(&format!("{:?}", case));
+            let mut st = stats.borrow_mut();
+            match record(ctx, &mut st, part, &case, Some(fp), obs, res) {
+                Ok(()) => Ok(()),
+                Err(v) => {
+                    *failed.borrow_mut() = true;
+                    *last_viol.borrow_mut() = Some(v.clone());
+                    Err(TestCaseError::fail(v.sig))
                 }
             }
+        });
+        let fail = match r {
+            Ok(()) => None,
+            Err(TestError::Fail(_, c)) => {
+                // re-judge the minimal case to get its own detail
+                let mut obs = Obs::default();
+                let v = match judge(&c, &mut obs) {
+                    Err(v) => v,
+                    Ok(()) => last_viol
+                        .borrow()
+                        .clone()
+                        .unwrap_or(Viol::new("unstable", "failure did not reproduce on the shrunk case")),
+                };
+                Some((v, serde_json::to_value(&c).unwrap_or(Value::Null)))
+            }
+            Err(TestError::Abort(why)) => Some((Viol::new("harness-abort", format!("proptest aborted: {}", why)), Value::Null)),
+        };
+        ShardOut {
+            stats: stats.into_inner(),
+            fail,
         }
-    }
-    if let Some((v, c)) = best {
-        report_failure(ctx, part, v, serde_json::to_value(&c).unwrap_or(Value::Null));
-    }
+    });
+    merge_shards(ctx, part, false, results);
 }
 
 /// Run an explicitly enumerated list of cases (deterministic, seed
@@ -494,52 +575,24 @@ where
     if ctx.stop.load(Ordering::SeqCst) {
         return;
     }
-    let results: Vec<(Stats, Option<(Viol, C)>)> = std::thread::scope(|s| {
-        let mut hs = vec![];
-        for shard in 0..SHARDS {
-            let judge = &judge;
-            let make = &make;
-            hs.push(s.spawn(move || {
-                let mut st = Stats::default();
-                let mut fail = None;
-                let mut i = shard as u64;
-                while i < n {
-                    let c = make(i);
-                    let mut obs = Obs::default();
-                    let res = judge(&c, &mut obs);
-                    if let Err(v) = record(ctx, &mut st, part, &c, None, obs, res) {
-                        fail = Some((v, c.clone()));
-                        break;
-                    }
-                    i += SHARDS as u64;
-                }
-                (st, fail)
-            }));
-        }
-        hs.into_iter().map(|h| h.join().expect("shard panicked")).collect()
-    });
-    let mut best: Option<(Viol, C)> = None;
-    {
-        let mut st = ctx.stats.lock().unwrap();
-        if exhaustive {
-            st.exhaustive_parts.push(part.to_string());
-        }
-        for (s, f) in results {
-            st.merge(s);
-            if let Some((v, c)) = f {
-                let better = match &best {
-                    None => true,
-                    Some((_, bc)) => format!("{:?}", c).len() < format!("{:?}", bc).len(),
-                };
-                if better {
-                    best = Some((v, c));
-                }
+    let nsh = shards();
+    let results = run_sharded(ctx, nsh, |shard| {
+        let mut st = Stats::default();
+        let mut fail = None;
+        let mut i = shard as u64;
+        while i < n {
+            let c = make(i);
+            let mut obs = Obs::default();
+            let res = judge(&c, &mut obs);
+            if let Err(v) = record(ctx, &mut st, part, &c, None, obs, res) {
+                fail = Some((v, serde_json::to_value(&c).unwrap_or(Value::Null)));
+                break;
             }
+            i += nsh as u64;
         }
-    }
-    if let Some((v, c)) = best {
-        report_failure(ctx, part, v, serde_json::to_value(&c).unwrap_or(Value::Null));
-    }
+        ShardOut { stats: st, fail }
+    });
+    merge_shards(ctx, part, exhaustive, results);
 }
 
 pub fn report_failure(ctx: &Ctx, part: &str, v: Viol, case: Value) {
@@ -780,7 +833,7 @@ impl DirPool {
         DirPool { base: ctx.fresh_dir(tag) }
     }
     pub fn with<T>(&self, f: impl FnOnce(&Path) -> T) -> T {
-        let p = self.base.join(format!("{:?}", std::thread::current().id()).replace(['(', ')'], ""));
+        let p = self.base.join(format!("p{}-{:?}", std::process::id(), std::thread::current().id()).replace(['(', ')'], ""));
         if !p.exists() {
             let _ = fs::create_dir_all(&p);
         }
